@@ -432,6 +432,10 @@ func c14Cases(quick bool) []sigCase {
 
 func TestC14(t *testing.T) {
 	s := vh.Begin(t, "C14")
+	if s.ReplayIn != "" && s.ReplayTag() == "fixed" {
+		c14EvalFixed(t, s)
+		return
+	}
 	if s.ReplayIn != "" {
 		var c sigCase
 		if err := s.LoadReplay(&c); err != nil {
@@ -439,6 +443,9 @@ func TestC14(t *testing.T) {
 		}
 		c14Eval(t, s, []sigCase{c})
 		return
+	}
+	if s.Shard == 0 {
+		c14EvalFixed(t, s)
 	}
 	all := c14Cases(s.Quick())
 	s.Extra("signature_cases_total", len(all))
@@ -488,4 +495,103 @@ func TestC14(t *testing.T) {
 		}
 		c14Eval(t, s, cases)
 	})
+}
+
+// fixedSigCases: consumers outside the enumeration - generic, inaccessible and non-function
+// references, struct-method sources.
+type fixedSigCase struct {
+	Name   string `json:"name"`
+	Conv   string `json:"conv"`   // converter declaration (package p)
+	Accept bool   `json:"accept"` // documented outcome
+}
+
+const c14FixedTypes = `package p
+
+type In struct{ A int }
+type Out struct{ A int }
+type CtxA struct{ V int }
+
+type WithMethod struct{ A int }
+
+func (w WithMethod) Calc() int { return w.A }
+func (w WithMethod) CalcErr() (int, error) { return w.A, nil }
+func (w WithMethod) CalcCtx(c *CtxA) int { return w.A + c.V }
+func (w WithMethod) NoResult() {}
+
+type OutCalc struct{ Calc int }
+type OutCalcErr struct{ CalcErr int }
+type OutCalcCtx struct{ CalcCtx int }
+type OutNoResult struct{ NoResult int }
+
+func Generic[T any](t T) T { return t }
+func InToOut(s In) Out { return Out{A: s.A} }
+func unexportedFn(s In) Out { return Out{A: s.A} }
+func IntToInt(i int) int { return i }
+
+var NotFunc = 1
+`
+
+var c14Fixed = []fixedSigCase{
+	{"extend-generic", "// goverter:converter\n// goverter:extend Generic\ntype C%d interface{ M(source In) Out }", false},
+	{"mapfunc-generic", "// goverter:converter\ntype C%d interface {\n\t// goverter:map A A | Generic\n\tM(source In) Out\n}", true},
+	{"extend-unexported-other-package-output", "// goverter:converter\n// goverter:extend unexportedFn\ntype C%d interface{ M(source []In) []Out }", false},
+	{"extend-unexported-same-package-output", "// goverter:converter\n// goverter:output:file ./same%d.go\n// goverter:output:package example.com/c14f/p\n// goverter:extend unexportedFn\ntype C%d interface{ M(source []In) []Out }", true},
+	{"extend-non-function", "// goverter:converter\n// goverter:extend NotFunc\ntype C%d interface{ M(source In) Out }", false},
+	{"extend-missing", "// goverter:converter\n// goverter:extend DoesNotExist\ntype C%d interface{ M(source In) Out }", false},
+	{"mapfunc-non-function", "// goverter:converter\ntype C%d interface {\n\t// goverter:map A A | NotFunc\n\tM(source In) Out\n}", false},
+	{"default-non-function", "// goverter:converter\ntype C%d interface {\n\t// goverter:default NotFunc\n\tM(source In) Out\n}", false},
+	{"variables-non-function", "// goverter:variables\n// goverter:output:file ./gen/v%d.go\n// goverter:output:package example.com/c14f/p/gen%d\nvar (\n\tV%d int\n)", false},
+	{"struct-method-source", "// goverter:converter\ntype C%d interface{ M(source WithMethod) OutCalc }", true},
+	{"struct-method-source-error-without-result", "// goverter:converter\ntype C%d interface{ M(source WithMethod) OutCalcErr }", false},
+	{"struct-method-source-error-with-result", "// goverter:converter\ntype C%d interface{ M(source WithMethod) (OutCalcErr, error) }", true},
+	{"struct-method-source-needs-context-missing", "// goverter:converter\ntype C%d interface{ M(source WithMethod) OutCalcCtx }", false},
+	{"struct-method-source-needs-context-present", "// goverter:converter\ntype C%d interface {\n\t// goverter:context c\n\tM(source WithMethod, c *CtxA) OutCalcCtx\n}", true},
+	{"struct-method-source-no-result", "// goverter:converter\ntype C%d interface{ M(source WithMethod) OutNoResult }", false},
+}
+
+func c14EvalFixed(t *testing.T, s *vh.Session) {
+	var conv strings.Builder
+	conv.WriteString("package p\n\n")
+	for i, c := range c14Fixed {
+		decl := c.Conv
+		n := strings.Count(decl, "%d")
+		args := make([]any, n)
+		for j := range args {
+			args[j] = i
+		}
+		conv.WriteString(fmt.Sprintf(decl, args...) + "\n\n")
+	}
+	dir := s.Scratch()
+	if err := vh.WriteTree(dir, map[string]string{"go.mod": "module example.com/c14f\n\ngo 1.22\n", "p/types.go": c14FixedTypes, "p/conv.go": conv.String()}); err != nil {
+		t.Fatalf("INFRA: %v", err)
+	}
+	l, err := vh.Load(vh.GenOpts{Dir: dir, Patterns: []string{"./p"}})
+	if err != nil {
+		s.Infra("C14 fixed program does not load: " + vh.FirstLines(err.Error(), 8))
+		t.Fatalf("INFRA: %v", err)
+	}
+	results := l.PerConverter(nil, nil)
+	byName := map[string]vh.ConvResult{}
+	for _, r := range results {
+		byName[r.Name] = r
+	}
+	for i, c := range c14Fixed {
+		r, ok := byName[fmt.Sprintf("C%d", i)]
+		if !ok {
+			r, ok = byName["vars:conv.go"]
+		}
+		if !ok {
+			t.Fatalf("INFRA: no result for fixed case %s", c.Name)
+		}
+		s.Eval(1)
+		s.Nontrivial("fixed:"+c.Name, c.Name)
+		s.Label(fmt.Sprintf("fixed:accept=%v", c.Accept))
+		if r.Panic != "" {
+			s.FailT(t, "fixed", c, "goverter panicked: "+vh.PanicSig(r.Panic))
+			continue
+		}
+		if (r.Err == nil) != c.Accept {
+			s.FailT(t, "fixed", c, fmt.Sprintf("%s: documented outcome accept=%v, goverter says %s", c.Name, c.Accept, outcome(r.GenResult)))
+		}
+	}
 }
